@@ -129,6 +129,8 @@ def run(ctx, chk):
                 if an.is_call(t, re.compile(r"^<seq::Seq<codec::iupac::Iupac> as std::cmp::PartialEq<&seq::slice::SeqSlice<codec::iupac::Iupac>>>::eq$")):
                     a0, a1 = t[2]
                     okc = an.is_call(a0, re.compile(r"^<&seq::slice::SeqSlice<codec::iupac::Iupac> as std::ops::BitAnd>::bitand$"), (me, P(2))) and a1 == P(2)
+                elif what != "SeqSlice<Iupac>::contains" and an.is_call(t, re.compile(r"^seq::slice::SeqSlice::<codec::iupac::Iupac>::contains$"), (me, P(2))):
+                    okc = True      # own length test, then the slice form (its row is below)
             chk.ob("G-contains", what, okc, "on equal lengths must compare (content(self) & content(rhs)) with rhs (the argument); got " + got, b["span"], sample=got)
             n += 1
     import core
